@@ -194,10 +194,17 @@ structure TEnv where
   defs : Nat → Ty
 
 /-- the typed constant of a `convert_const` -/
+def chars : Val → Option (List Nat)
+  | .nil => some []
+  | .cons (.ch c) t => (chars t).map (c :: ·)
+  | _ => none
+
 def constTV : Val → Option (TVal × Ty)
   | .unit => some (.unit, .unit)
   | .ch c => some (.ch c, .ch)
   | .int i => some (.int i, .int)
+  | .nil => some (.str [], .str)                                 -- a std::basic_string<Ch> constant
+  | .cons h t => (chars (.cons h t)).map fun cs => (.str cs, .str)
   | _ => none
 
 def isTup : Ty → Bool
